@@ -275,7 +275,10 @@ def run(ctx):
                 if isinstance(x, ast.Attribute) and isinstance(x.value, ast.Name) and x.value.id == pn and x.attr not in base_members:
                     specific.add("%s.%s" % (f.name, x.attr))
     for n_, c in runs:
-        g = v7.guard_for(n_, lambda t: mentions(t, "_unknown_attributes"))
+        from sa.dataflow import ReachingDefs as _RD147, depends_on as _dep147
+        rd147 = _RD147(cta)
+        g = v7.guard_for(n_, lambda t: mentions(t, "_unknown_attributes") or _dep147(
+            rd147, t, t, lambda y: isinstance(y, ast.Attribute) and y.attr == "_unknown_attributes"))
         ctx.check(g is not None or not specific, "R14.7", cta.qualname, c, loc(cta, c),
                   "validators are run for every attribute an entry carries, also for one that its section does not declare "
                   "(already reported as unknown); they use members only some entry kinds have (%s), so e.g. `defaultUnits` seeded on a "
